@@ -157,7 +157,11 @@ func (c *Conn) EnquireLink(tick time.Duration, timeout time.Duration) {
 	}
 	for {
 		sendEnquireLink()
-		<-ticker.C
+		select {
+		case <-c.ctx.Done():
+			return
+		case <-ticker.C:
+		}
 	}
 }
 
